@@ -25,6 +25,11 @@ Definition f64_trunc (x : f64) : Z :=
     if ((min_int64 <=? z) && (z <? 2^63))%Z then z else min_int64
   else min_int64.
 
+Definition f64_le (x y : f64) : bool :=
+  match b64_compare x y with Some Lt | Some Eq => true | _ => false end.
+(** float64(1+1e-9) = 0x3FF000000044B830 = (2^52 + 4503600) * 2^-52 *)
+Definition f64_wmax : f64 := Binary.B754_finite 53 1024 false 4503599631874096 (-52) eq_refl.
+
 Definition arithF : arith := {|
   num := f64;
   a_zero := f64_of_Z 0;
@@ -37,7 +42,9 @@ Definition arithF : arith := {|
   a_gt := f64_gt;
   a_lt := f64_lt;
   a_of_nat := fun n => f64_of_Z (Z.of_nat n);
-  a_trunc := f64_trunc
+  a_trunc := f64_trunc;
+  a_le := f64_le;
+  a_wmax := f64_wmax
 |}.
 
 (** bits: NaNs are canonicalised to one value (payloads are not observable through
@@ -64,3 +71,4 @@ Definition f64_to_Q (x : f64) : Q :=
   end.
 
 Definition weighF (l : list Z) : list Z := map f64_bits (weigh arithF (map f64_of_bits l)).
+Definition weighF_unrepaired (l : list Z) : list Z := map f64_bits (weigh_unrepaired arithF (map f64_of_bits l)).
